@@ -150,11 +150,16 @@ def run_property(prop, tier, seed, replay_path, t0):
                     idx = [j for j, x in enumerate(c) if x.split('\t', 1)[0] in ops]
                     compare(res, prop, cm_suite, [c[j] for j in idx], [i[j] for j in idx], [m[j] for j in idx])
             if not replay_path:
-                for k, s in enumerate(cfg['suites']):
+                # thorough: every suite twice, with two independent generator seeds
+                reps = [0] if tier == 'quick' else [0, 1]
+                plan = [(k, s, rep) for rep in reps for k, s in enumerate(cfg['suites'])]
+                for k, s, rep in plan:
                     suite, nq, nt = s[0], s[1], s[2]
                     extra = s[3] if len(s) > 3 else ()
                     n = nq if tier == 'quick' else nt
-                    sseed = seed * 1000003 + k
+                    if rep and suite in ('allocs', 'stress', 'names'):
+                        continue    # deterministic or already long-running suites are not repeated
+                    sseed = seed * 1000003 + k + 7919 * rep
                     try:
                         c, i, m = runner.run_suite(stage, suite, sseed, n, workdir, extra)
                     except runner.HarnessCrash as hc:
@@ -166,7 +171,8 @@ def run_property(prop, tier, seed, replay_path, t0):
                         mp = runner.run_pinned(stage, os.path.join(workdir, suite + '.cases'), os.path.join(workdir, suite + '.pinned'))
                         if len(mp) == len(c):
                             compare(res, prop, suite, c, i, mp, pinned=True)
-                    res.suite_rules.append('%s: %s' % (suite, runner.RULES[suite]))
+                    if not rep:
+                        res.suite_rules.append('%s: %s' % (suite, runner.RULES[suite]))
                 # property-specific machinery
                 import extras
                 extras.run(prop, tier, seed, stage, res, problems, extra_info, workdir)
